@@ -1,9 +1,8 @@
 (* C05 obligation: division by an exact zero gives zoo (nan for 0/0) at every entry point:
    Number::div on every pair of exact kinds (divint, divrat, divcomp, rdivrat, rdivcomp),
-   Integer::rdiv, Rational::from_two_ints.
-   The remaining entry point, a negative power of 0, is REFUTED: Integer(0).pow(-1) ends in
-   pow_negint building rational_class(0, 0) -> SIGFPE (replayed on the library: `pow I:0 I:-1`);
-   C05_num_powint_correct carries the corresponding guard (base nonzero when e < 0). *)
+   Integer::rdiv, Rational::from_two_ints, and a negative power of 0 (Integer::pow_negint;
+   this entry point died with SIGFPE until commit 5eef324 -- found by this slice, case
+   `pow I:0 I:-1`; the model follows the repaired code). *)
 From SE Require Import Num.NumModel Num.NumSpec Num.NumC05.
 Local Open Scope Z_scope.
 Theorem C05_div_by_exact_zero :
@@ -18,7 +17,7 @@ Proof. exact mk_rat_zero_den. Qed.
 Theorem C05_int_rdiv_zero :
   forall y, num_rdiv (NInt 0) (NInt y) = Ok (if y =? 0 then NNaN else NInf 0).
 Proof. exact int_rdiv_zero. Qed.
-Theorem C05_pow_zero_negative_refuted :
-  exists e, e < 0 /\ num_pow (NInt 0) (NInt e) = ErrExn EXN_SIGFPE.
-Proof. exact pow_zero_negative_refuted. Qed.
-Print Assumptions C05_pow_zero_negative_refuted.
+Theorem C05_pow_zero_negative :
+  forall e, e < 0 -> Z.abs e <? TWO64 = true -> num_pow (NInt 0) (NInt e) = Ok (NInf 0).
+Proof. exact pow_zero_negative. Qed.
+Print Assumptions C05_pow_zero_negative.
